@@ -201,7 +201,7 @@ impl Gen {
                 expect.push(me(Some(shape.expected())));
             }
             4 => {
-                inserts.push((*at, format!("{doc}{eol}  /* plain é */ // line 日本{eol}  // void old();{eol}  //{eol}  //   {eol}  // interface Old {{{eol}  // }}{eol}  ")));
+                inserts.push((*at, format!("{doc}{eol}  /* plain é */ // line 日本{eol}  // void old();{eol}  //{eol}  //   {eol}  // interface Old {{{eol}  // }}{eol}  // was: void ping(int a); void pong(); }} else {{ x = 1; y{eol}  // TODO: bump on release; keep in sync (see #12) 'quoted' @tag{eol}  ")));
                 expect.push(me(Some(shape.expected())));
             }
             5 => {
@@ -368,6 +368,27 @@ pub fn run(tier: Tier, seed: u64) -> i32 {
             };
             v.push(DocShape { paras, tags: vec![] });
         }
+        // data values: punctuation, digits, underscores, case-sensitive letters, tags of many kinds
+        v.push(DocShape {
+            paras: vec![
+                vec![
+                    "Returns the 1st item (e.g. \"x\"), see #3; cost <= 50% & more...".to_string(),
+                    "- a dash-led line, 1. numbered, x_1 = y_2 + z[3], C:\\dir\\file.txt".to_string(),
+                ],
+                vec!["TODO(name): fix snake_case and camelCase, ALLCAPS, Ünïcödé ǅ ß ẞ İ ı Σ ς.".to_string()],
+            ],
+            tags: vec![
+                "@param x_1 the (first) value; may be \"null\"".to_string(),
+                "@throws IllegalStateException if #x < 0".to_string(),
+                "@see Foo#bar(int)".to_string(),
+                "@deprecated".to_string(),
+                "@return {0, 1} or [2]".to_string(),
+            ],
+        });
+        v.push(DocShape {
+            paras: vec![vec!["a".to_string()], vec!["b".to_string()], vec!["c".to_string()], vec!["0".to_string()]],
+            tags: vec!["@a".to_string(), "@b c".to_string()],
+        });
         // several paragraphs and tag clauses, > 2 KB
         v.push(DocShape {
             paras: (0..6).map(|p| (0..5).map(|k| line(p * 5 + k)).collect()).collect(),
@@ -397,7 +418,7 @@ pub fn run(tier: Tier, seed: u64) -> i32 {
         },
         check_case,
     );
-    stats.space(json!({"space": "long doc comments (0.6-5 KB) x 6 situations x styles x constructs x EOL", "shapes": longs.len()}));
+    stats.space(json!({"space": "long doc comments (0.6-5 KB) and punctuation / tag-rich doc comments x 6 situations x styles x constructs x EOL", "shapes": longs.len()}));
     // part 4: the situation with a dozen line comments x representative shapes
     let all = SITUATIONS.iter().all(|s| stats.outcome_count(&format!("situation:{s}")) > 0);
     finish(
